@@ -147,6 +147,8 @@ impl SystemdUnit {
 
     pub(crate) fn lookup_bool(&self, section: &str, key: &str) -> Option<bool> {
         self.lookup_last_value(section, key)
+            // an empty assignment resets the key
+            .filter(|v| !v.raw().trim().is_empty())
             .map(|v| v.to_bool().unwrap_or(false))
     }
 
